@@ -290,6 +290,12 @@ class SymArray:
             e = old.get(idx)
             if isinstance(e, Entry):
                 return Entry(e.name, e.idx, not e.conj)
+            if isinstance(e, Delta):
+                return e
+            from . import bilinear
+
+            if isinstance(e, (bilinear.Poly, SumEntry)):
+                return bilinear.p_conj(e)
             raise Unsupported("conjugate of a non-entry")
 
         return SymArray(self.shape, g, self.kind)
